@@ -217,10 +217,16 @@ class Program:
                 self.normalisation["unrenamed"] = unrename(self, known_names())
                 from .canon import partial_to_lambda
                 self.normalisation["partials_to_lambdas"] = partial_to_lambda(self, known_names())
+                from .canon import inline_generator_delegation
+                self.normalisation["generator_delegations_inlined"] = inline_generator_delegation(self, known_names())
                 from .canon import closures_from_method_refs
                 self.normalisation["closures_restored"] = closures_from_method_refs(self, known_names())
                 self.normalisation["locals_unrenamed"] = unrename_locals(self)
                 self.normalisation["canonicalised"] = canonicalise(self)
+                from .inline import scalarise_helper_objects
+                self.normalisation["helper_objects_dissolved"] = scalarise_helper_objects(self)
+                if self.normalisation["helper_objects_dissolved"]:
+                    self.normalisation["locals_unrenamed"] = list(self.normalisation["locals_unrenamed"] or []) + list(unrename_locals(self) or [])
                 self.inlining = inline_new_helpers(self)
                 self.normalisation["inlining"] = self.inlining
                 if self.inlining.get("inlined_calls"):
